@@ -641,7 +641,28 @@ let s5_case (c : case) : unit =
     else if String.sub s 0 2 = "s:" then
       (match source_of ("seed:" ^ String.sub s 2 (String.length s - 2)) with SrcWords (f, _) -> CGenerate f | _ -> assert false)
     else CFromBytes (bytes_of_hex (String.sub s 2 (String.length s - 2))) in
-  let (model, _) = run_history (the_env ()) (gen_new cfg) (List.map to_call calls) in
+  (* `c:<field>=<value>` changes a public setting between two calls: the model's generator object carries its configuration
+     (gn_cfg) and nothing of a call survives it except that, so the history is run segment by segment *)
+  let set_field (c : config) (kvs : string) : config =
+    match String.split_on_char '=' kvs with
+    | ["unsafe"; v] -> { c with c_unsafe = (v = "1") }
+    | ["ext"; v] -> { c with c_ext = (v = "1") }
+    | ["buf"; v] -> { c with c_buf = (v = "1") }
+    | ["min"; v] -> { c with c_min = n_of_hex (Printf.sprintf "%x" (int_of_string v)) }
+    | ["max"; v] -> { c with c_max = n_of_hex (Printf.sprintf "%x" (int_of_string v)) }
+    | ["rate"; v] -> { c with c_rate = n_of_hex v }
+    | _ -> failwith ("bad setting " ^ kvs) in
+  let model =
+    let g = ref (gen_new cfg) and acc = ref [] in
+    List.iter (fun s ->
+      if String.length s > 2 && String.sub s 0 2 = "c:" then begin
+        g := { !g with gn_cfg = set_field !g.gn_cfg (String.sub s 2 (String.length s - 2)) };
+        acc := None :: !acc
+      end else begin
+        let (rs, g') = run_history (the_env ()) !g [to_call s] in
+        g := g'; acc := List.rev_append rs !acc
+      end) calls;
+    List.rev !acc in
   let impl = ref [] and fresh = ref None in
   List.iter (fun l ->
     match words l with
@@ -671,9 +692,15 @@ let s5_case (c : case) : unit =
            c.id (List.length impl - 1) (List.nth calls (List.length calls - 1)) (List.length impl - 1)
            (String.sub last 0 (min 80 (String.length last))) (String.sub f 0 (min 80 (String.length f)))
    | _ -> ());
+  (* every returned pickle is judged under the settings in force at ITS call *)
+  let cfg_at =
+    let cur = ref cfg in
+    List.map (fun s -> (if String.length s > 2 && String.sub s 0 2 = "c:" then cur := set_field !cur (String.sub s 2 (String.length s - 2))); !cur) calls in
   List.iteri (fun i a ->
     match words a with
-    | ["RESULT"; "ok"; hx] -> output_props c.id cfg (is_safe cfg) (bytes_of_hex hx) (Printf.sprintf " (call %d of the history)" i)
+    | ["RESULT"; "ok"; hx] ->
+        let ci = (try List.nth cfg_at i with _ -> cfg) in
+        output_props c.id ci (is_safe ci) (bytes_of_hex hx) (Printf.sprintf " (call %d of the history)" i)
     | _ -> ()) impl;
   List.iter (fun a -> if String.length a > 12 && String.sub a 0 12 = "RESULT panic" || (String.length a > 10 && String.sub a 0 10 = "RESULT err") then
                 Printf.printf "PROP %s C09 fail %s\n" c.id a) impl;
